@@ -8,4 +8,4 @@ EXPLANATION = ""
 
 
 def build(tier):
-    return c22.build(tier)
+    return c22.build(tier) + c22.build_kani(tier)
